@@ -328,6 +328,21 @@ func (e *Env) ident(name string) Term {
 		if a := e.fr.allocByName(name); a != nil {
 			return e.fr.loadAlloc(e.st, a)
 		}
+		// captured variable of a closure: the free variable is a pointer to it
+		for _, fv := range e.fr.fn.FreeVars {
+			if fv.Name() == name {
+				if p, ok := e.fr.freeVars[fv]; ok {
+					if et := elemTypeOfPtr(fv.Type()); et != nil {
+						v := fc.loadVal(e.st, p, et)
+						v.T = et
+						return v
+					}
+				}
+			}
+		}
+	}
+	if _, ok := fc.w.specs.Ghost[name]; ok {
+		return fc.comp(e.st, name)
 	}
 	// package-level constants and globals
 	if p := fc.w.pkgTypes(e.pkgName); p != nil {
@@ -496,6 +511,13 @@ func (e *Env) index(x, i Term) Term {
 	}
 	if strings.HasPrefix(x.Sort, "(Array Int ") {
 		es := strings.TrimSuffix(strings.TrimPrefix(x.Sort, "(Array Int "), ")")
+		return mk(app("select", x.S, i.S), es, nil)
+	}
+	if strings.HasPrefix(x.Sort, "(Array Ptr ") {
+		es := strings.TrimSuffix(strings.TrimPrefix(x.Sort, "(Array Ptr "), ")")
+		if i.Sort == SSlice {
+			i = slArr(i)
+		}
 		return mk(app("select", x.S, i.S), es, nil)
 	}
 	e.fail("cannot index value of sort %s (type %v)", x.Sort, x.T)
@@ -680,6 +702,39 @@ func (e *Env) call(c SCall) Term {
 			for _, name := range e.compNames(a) {
 				cs = append(cs, tEq(fc.comp(e.st, name), fc.comp(e.old, name)))
 			}
+		}
+		return tAnd(cs...)
+	case "unchangedExcept":
+		// unchangedExcept(COMP, p1, p2, ...): the component is unchanged at every index other than p1..pn
+		if e.old == nil {
+			e.fail("needs an old state")
+		}
+		var ex []Term
+		for _, a := range c.Args[1:] {
+			t := e.eval(a)
+			if t.Sort == SSlice {
+				t = slArr(t)
+			}
+			ex = append(ex, t)
+		}
+		var cs []Term
+		for _, name := range e.compNames(c.Args[0]) {
+			cur, old := fc.comp(e.st, name), fc.comp(e.old, name)
+			if cur.S == old.S {
+				continue
+			}
+			cur = fc.nameTerm("hc", cur)
+			fc.n++
+			q := fmt.Sprintf("q!q%d", fc.n)
+			var cond []string
+			for _, x := range ex {
+				cond = append(cond, fmt.Sprintf("(not (= %s %s))", q, x.S))
+			}
+			c := "true"
+			if len(cond) > 0 {
+				c = "(and " + strings.Join(cond, " ") + ")"
+			}
+			cs = append(cs, mk(fmt.Sprintf("(forall ((%s Ptr)) (! (=> %s (= (select %s %s) (select %s %s))) :pattern ((select %s %s))))", q, c, cur.S, q, old.S, q, cur.S, q), SBool, nil))
 		}
 		return tAnd(cs...)
 	case "unchangedExceptArr":
